@@ -413,7 +413,7 @@ func (c *Ctx) checkReport(r *shape.Result, fi *load.FuncInfo) {
 		if !ok {
 			continue
 		}
-		vs, _ := shape.FieldOf(co, "values").(*shape.Stream)
+		vs, _ := columnStream(co)
 		if vs == nil || vs.Len == nil || vs.Lead == nil {
 			run.Oblige(false)
 			run.Violate(report.Finding{Rule: "report/column", Site: fmt.Sprintf("%s/column%d", site, i), Detail: "unknown", Pos: pos, Message: "column stream could not be determined"})
